@@ -22,8 +22,12 @@ type FuncResult struct {
 
 // VerifyFunc symbolically executes one function against its contract and returns its obligations.
 func (e *Engine) VerifyFunc(key string) (res *FuncResult) {
-	fi := e.funcs[key]
 	res = &FuncResult{Key: key}
+	if strings.HasPrefix(key, "callers.") {
+		e.verifyCallers(strings.TrimPrefix(key, "callers."), res)
+		return
+	}
+	fi := e.funcs[key]
 	if ct := e.db.Funcs[key]; ct != nil && ct.Kind == "lemma" {
 		fi = &FuncInfo{Key: key, Pkg: e.pkg}
 	}
@@ -41,7 +45,7 @@ func (e *Engine) VerifyFunc(key string) (res *FuncResult) {
 		}
 	}()
 	for attempt := 0; attempt < 6; attempt++ {
-		x := &Exec{e: e, vc: NewVC(key), top: fi, trusted: map[string]bool{}, pendingMods: map[string]bool{}, setofMemo: map[string]string{}, anchorHits: map[string]int{}, storeInfo: map[string][2]string{}, freshRefs: map[string]int{}, inlinedKeys: map[string]bool{}}
+		x := &Exec{e: e, vc: NewVC(key), top: fi, trusted: map[string]bool{}, pendingMods: map[string]bool{}, setofMemo: map[string]string{}, anchorHits: map[string]int{}, storeInfo: map[string][2]string{}, freshRefs: map[string]int{}, inlinedKeys: map[string]bool{}, owned: map[string]types.Type{}, escaped: map[string]bool{}}
 		if fi.Decl == nil {
 			x.runLemma(fi, e.db.Funcs[key])
 		} else {
@@ -180,7 +184,11 @@ func (x *Exec) run(fi *FuncInfo) {
 	}
 	finish := func(m *State, vals []*Val) {
 		if m.needRetCut {
-			x.release(m, fi.Decl.Body, "ret", fr.recv)
+			var at ast.Node = fi.Decl.Body
+			if m.retAt != nil {
+				at = m.retAt
+			}
+			x.release(m, at, "ret", fr.recv)
 		}
 		// bind results for ensures
 		for i, rv := range fr.results {
@@ -242,8 +250,12 @@ func (x *Exec) anchors(kind, text string, at ast.Node, st *State) {
 		return
 	}
 	want := kind + " " + text
+	full := kind + " " + normSpace(x.e.srcText(at))
 	for _, c := range fr.contract.Clauses {
-		if (c.Kind != "at-assert" && c.Kind != "at-assume") || c.Anchor != want {
+		if c.Kind != "at-assert" && c.Kind != "at-assume" {
+			continue
+		}
+		if c.Anchor != want && !(strings.Contains(c.Anchor, "(") && strings.HasPrefix(full, c.Anchor)) {
 			continue
 		}
 		g := x.cevalClauseAt(c, st, fr, at.Pos())
@@ -449,4 +461,67 @@ func (x *Exec) unboundClauses() []string {
 	}
 	sort.Strings(out)
 	return out
+}
+
+// verifyCallers: call-graph obligation. Every syntactic call site of callee in the repository
+// must lie in one of the allowed functions (used for "X is only ever called from Y").
+func (e *Engine) verifyCallers(callee string, res *FuncResult) {
+	allowed, ok := e.db.Callers[callee]
+	if !ok {
+		res.Err = "UNBOUND: no callers item for " + callee
+		return
+	}
+	if e.funcs[callee] == nil {
+		res.Err = "UNBOUND: function " + callee + " not found"
+		return
+	}
+	vc := NewVC("callers." + callee)
+	sites := 0
+	var bad []string
+	for _, k := range sortedKeys(e.funcs) {
+		fi := e.funcs[k]
+		ast.Inspect(fi.Decl.Body, func(n ast.Node) bool {
+			c, ok := n.(*ast.CallExpr)
+			if !ok {
+				return true
+			}
+			var fn *types.Func
+			switch f := unparen(c.Fun).(type) {
+			case *ast.Ident:
+				fn, _ = fi.Pkg.TypesInfo.Uses[f].(*types.Func)
+			case *ast.SelectorExpr:
+				if sel := fi.Pkg.TypesInfo.Selections[f]; sel != nil {
+					fn, _ = sel.Obj().(*types.Func)
+				} else {
+					fn, _ = fi.Pkg.TypesInfo.Uses[f.Sel].(*types.Func)
+				}
+			}
+			if fn == nil || e.funcKey(fn) != callee {
+				return true
+			}
+			sites++
+			okSite := false
+			for _, a := range allowed {
+				if a == k {
+					okSite = true
+				}
+			}
+			if !okSite {
+				bad = append(bad, k+" at "+e.pos(c.Pos()))
+			}
+			return true
+		})
+	}
+	goal := "true"
+	clause := fmt.Sprintf("all %d call sites of %s are in {%s}", sites, callee, strings.Join(allowed, ", "))
+	if len(bad) > 0 {
+		goal = "false"
+		clause += "; offending: " + strings.Join(bad, "; ")
+	}
+	if sites == 0 {
+		res.Err = "UNBOUND: " + callee + " has no call sites"
+		return
+	}
+	o := &Obligation{Name: "callers." + callee, Func: "callers." + callee, Kind: "callgraph", Pos: e.pos(e.funcs[callee].Decl.Pos()), Clause: clause, Goal: goal, vc: vc}
+	res.Obls = []*Obligation{o}
 }
